@@ -498,6 +498,9 @@ class RunOracle:
             bad.append(("C02", x))
         if rn["result"] != exp:
             bad.append(("C02", "injector returned %s, expected %s" % (rn["result"], exp)))
+            if inj["out"][0] == "i":
+                # the result is itself a dependency on an interface: it must be the value supplied for the bound type
+                bad.append(("C11", "injector result of interface type is %s, expected %s (the value of the bound source)" % (rn["result"], exp)))
         if inj["err"] and rn["err"] != "nil":
             bad.append(("C03", "error on a successful run: %s" % rn["err"]))
         if inj["cleanup"]:
